@@ -72,7 +72,7 @@ BOUNDED = {
                      'bound': 'histories of 0 / 3 / 150 frames, 60 live appends (ephemeral mixed in) by one writer, limits 1..6 x 0..5 historical '
                               'matches, tail, two contexts, a consumer that stalls for 3000 appends; assertions on content only'},
     'store_model': {'test': 'replays/suite/vx_store_model.rs', 'props': ['C01', 'C05', 'C06', 'C07', 'C08', 'C09', 'C20'],
-                    'bound': 'VX_HISTORIES histories (40 quick / 200 thorough) x 60 steps, seeded by VERIF_SEED; 12 adversarial topics, 3 contexts '
+                    'bound': 'VX_HISTORIES histories (40 quick / 200 thorough) x 60 steps, seeded by VERIF_SEED; 14 adversarial topics (two of 304 bytes sharing 303), 3 contexts '
                              '(one numerically adjacent, imported), all TTL kinds, remove, reopen, last-id/limit reads, rejected appends and imports; every 4th history exported and imported newest-first into an empty store'},
 }
 
